@@ -112,7 +112,7 @@ type tnOp struct {
 	K     int    `json:"k"`     // flap: index into tnCutAfter; sub*: index into tnSizes
 	Dir   int    `json:"dir"`   // flap: 0 = cut counts bytes A->B, 1 = B->A
 	Rst   bool   `json:"rst"`   // flap: reset instead of an orderly close
-	Flags int    `json:"flags"` // sub*: bit0 delivery report requested, bit1 reception report requested, bit2 second endpoint, bit3 report time requested
+	Flags int    `json:"flags"` // sub*: bit0 delivery report requested, bit1 reception report requested, bit2 second endpoint, bit3 report time requested, bit4 hop-count block (limit 5), bit5 zero creation time + bundle-age block
 }
 
 type tnCase struct {
@@ -128,6 +128,9 @@ type tnSub struct {
 	Dest    string
 	Payload []byte
 	Flags   int
+	LinkDown bool      // no link when the bundle was submitted
+	At       time.Time // submission
+	UpAt     time.Time // the first "link up" after the submission began (zero: none yet)
 	Bundle  bpv7.Bundle
 }
 
@@ -149,6 +152,11 @@ type tnWorld struct {
 
 func (w *tnWorld) logf(f string, a ...interface{}) {
 	w.trace = append(w.trace, fmt.Sprintf(f, a...))
+	for _, n := range w.n {
+		if n != nil {
+			n.trace = w.trace
+		}
+	}
 }
 
 func (w *tnWorld) failf(tag, f string, a ...interface{}) {
@@ -169,6 +177,7 @@ func newTnWorld(c *vk.Ctx, cs *tnCase) *tnWorld {
 	w.lg = tnInstallLog()
 	w.n[0] = vfNewSimNamed(c, tnConf(cs.Algo), false, tnNameA)
 	w.n[1] = vfNewSimNamed(c, tnConf(cs.Algo), false, tnNameB)
+	w.n[0].slow, w.n[1].slow = 6, 6
 	p, err := vk.NewProxy()
 	if err != nil {
 		w.failf("sim.harness", "proxy: %v", err)
@@ -258,6 +267,11 @@ func (w *tnWorld) linkUp() {
 	if w.client != nil {
 		return
 	}
+	for _, sub := range w.subs {
+		if sub.UpAt.IsZero() {
+			sub.UpAt = time.Now()
+		}
+	}
 	if w.lnB == nil {
 		w.startListener()
 	}
@@ -316,12 +330,20 @@ func (w *tnWorld) build(from int, op tnOp) *tnSub {
 	if op.Flags&8 != 0 {
 		flags |= bpv7.RequestStatusTime
 	}
-	b, err := bpv7.Builder().CRC(bpv7.CRC32).Source(me + "app").Destination(dest).ReportTo(me + "app2").
-		CreationTimestampNow().Lifetime("1h").BundleCtrlFlags(flags).PayloadBlock(payload).Build()
+	bl := bpv7.Builder().CRC(bpv7.CRC32).Source(me + "app").Destination(dest).ReportTo(me + "app2").Lifetime("1h").BundleCtrlFlags(flags)
+	if op.Flags&32 != 0 {
+		bl = bl.CreationTimestampEpoch().BundleAgeBlock(uint64(0))
+	} else {
+		bl = bl.CreationTimestampNow()
+	}
+	if op.Flags&16 != 0 {
+		bl = bl.HopCountBlock(5)
+	}
+	b, err := bl.PayloadBlock(payload).Build()
 	if err != nil {
 		w.failf("sim.harness", "bundle: %v", err)
 	}
-	return &tnSub{From: from, Dest: dest, Payload: payload, Flags: op.Flags, Bundle: b}
+	return &tnSub{From: from, Dest: dest, Payload: payload, Flags: op.Flags, Bundle: b, LinkDown: w.client == nil}
 }
 
 func (w *tnWorld) apply(op tnOp) {
@@ -357,6 +379,7 @@ func (w *tnWorld) apply(op tnOp) {
 		w.subs = append(w.subs, sub)
 		w.logf("application of %s submits bundle %d (%d bytes, flags %d) for %s", map[int]string{0: "A", 1: "B"}[from], len(w.subs)-1, len(sub.Payload), op.Flags, sub.Dest)
 		// the node assigns the sequence number in place
+		sub.At = time.Now()
 		w.n[from].core.SendBundle(&sub.Bundle)
 	case "tickA":
 		w.logf("retry tick at A")
@@ -534,7 +557,7 @@ func genTnCase() *rapid.Generator[tnCase] {
 				op.Rst = rapid.Bool().Draw(t, "rst")
 			case "subA", "subB":
 				op.K = rapid.IntRange(0, maxSize-1).Draw(t, "size")
-				op.Flags = rapid.IntRange(0, 15).Draw(t, "flags")
+				op.Flags = rapid.IntRange(0, 63).Draw(t, "flags")
 			}
 			return op
 		}), 3, 12).Draw(t, "ops")
